@@ -151,7 +151,7 @@ def sys_await_positions():
 # ---------------------------------------------------------------------------------------------
 # fwd: forwarding topologies (C07, C08, C09; finding F4)
 # ---------------------------------------------------------------------------------------------
-def fwd_graph_scn(names, edges, entry, slow=False, await_first=True, second=None, nested=False):
+def fwd_graph_scn(names, edges, entry, slow=False, await_first=True, second=None, nested=False, mid_await=False):
     handlers, scripts = [], {}
     for b in names:
         ops = [['s', 2]] if slow else []
@@ -160,8 +160,19 @@ def fwd_graph_scn(names, edges, entry, slow=False, await_first=True, second=None
         scripts['S_' + b] = {'E': ops + [['rb']], 'K': [], 'E2': [['rb']]}
     # registration order per bus: puppet first or forwards first alternates with the bus index
     for i, b in enumerate(names):
-        f = [fwd(s, d) for (s, d) in edges if s == b]
-        if i % 2 == 0:
+        f = []
+        for (s_, d_) in edges:
+            if s_ == b:
+                h = fwd(s_, d_)
+                if any(x['id'] == h['id'] for x in f):
+                    h['id'] += '_dup%d' % len(f)
+                f.append(h)
+        if mid_await and len(f) >= 2:
+            # the scenario handler sits between two forwards and awaits a child: the inline drain may carry the event on meanwhile
+            k = 'S_' + b
+            scripts[k] = dict(scripts[k], E=[['d', names[(i + 1) % len(names)], 'K'], ['a', 0]] + scripts[k]['E'])
+            handlers += f[:1] + [wild(b)] + f[1:]
+        elif i % 2 == 0:
             handlers += [wild(b)] + f
         else:
             handlers += f + [wild(b)]
@@ -191,9 +202,12 @@ def gen_fwd(seed):
     names = ['b%d' % (i + 1) for i in range(n)]
     pairs = [(s, d) for s in names for d in names]
     edges = [p for p in pairs if rng.random() < (0.35 if n < 4 else 0.22)]
+    if rng.random() < 0.3 and edges:   # several forwards to the same bus (registered twice)
+        edges = edges + [rng.choice(edges)]
+        rng.shuffle(edges)
     entry = rng.choice(names)
     return fwd_graph_scn(names, edges, entry, slow=rng.random() < 0.5, await_first=rng.random() < 0.7,
-                         second=rng.choice(names) if rng.random() < 0.4 else None, nested=rng.random() < 0.3)
+                         second=rng.choice(names) if rng.random() < 0.4 else None, nested=rng.random() < 0.3, mid_await=rng.random() < 0.4)
 
 
 # ---------------------------------------------------------------------------------------------
@@ -221,6 +235,19 @@ def sys_firstuse():
                 d.append(['d', b, 'L'])
             d += [['a', 0]] + [['idle', b] for b in names]
             out.append(scn([bus(names[0], parallel=par)] + [bus(b) for b in names[1:]], [wild(b) for b in names], scripts, [d], tag='firstuse'))
+    # first use of a bus through wait_until_idle() / expect-free paths from inside a handler, then overlapping traffic
+    for nb, tmo, sleepk, par in itertools.product((2, 3), (150, 300), (2, 5), (False, True)):
+        names = ['b%d' % (i + 1) for i in range(nb)]
+        r_ops = [['idle', b, tmo] for b in names[1:]] + [['s', 2]]
+        scripts = {'S_b1': {'R': r_ops, 'L': [['s', 3], ['y', 1]], 'M': [['s', 2]]}}
+        for b in names[1:]:
+            scripts['S_' + b] = {'L': [['s', sleepk], ['y', 2]], 'M': [['s', 4]], 'R': []}
+        d = [['d', 'b1', 'R'], ['a', 0]]
+        for rnd in ('L', 'M'):
+            for b in names:
+                d.append(['d', b, rnd])
+        d += [['idle', b, 3000] for b in names]
+        out.append(scn([bus(names[0], parallel=par)] + [bus(b) for b in names[1:]], [wild(b) for b in names], scripts, [d], horizon=8000, tag='firstuse_idle'))
     return out
 
 
@@ -243,7 +270,7 @@ def sys_recursion():
 # ---------------------------------------------------------------------------------------------
 # timeout: handler timeouts placed at every segment (C10; finding F5)
 # ---------------------------------------------------------------------------------------------
-def timeout_scn(tmo, pre, child_sleep, grand_sleep, awaited, second_handler, later_event, target):
+def timeout_scn(tmo, pre, child_sleep, grand_sleep, awaited, second_handler, later_event, target, extra=''):
     r_ops = []
     if pre:
         r_ops.append(['s', pre])
@@ -260,6 +287,11 @@ def timeout_scn(tmo, pre, child_sleep, grand_sleep, awaited, second_handler, lat
     handlers = [wild('b1'), wild('b2')]
     if second_handler:
         handlers.append(typed('b1', 'R', 'S2', hid='second'))
+    scripts['S3'] = {'C': [['s', 1]], 'G': [['s', 1]]}
+    if 'C' in extra:   # a second (serial) handler for the child on its bus: pending while the first one runs
+        handlers.append(typed(target, 'C', 'S3', hid='c_second'))
+    if 'G' in extra:
+        handlers.append(typed('b1', 'G', 'S3', hid='g_second'))
     d = [['d', 'b1', 'R']]
     if later_event:
         d.append(['d', 'b1', 'L'])
@@ -272,6 +304,8 @@ def sys_timeout():
     for tmo, pre, cs, gs, aw, sh, le, tg in itertools.product([2, 5, 9, 50], [0, 3], [0, 4], [None, 0, 4], [True, False], [False, True],
                                                               [False, True], ['b1', 'b2']):
         out.append(timeout_scn(tmo, pre, cs, gs, aw, sh, le, tg))
+    for tmo, cs, gs, extra, tg in itertools.product([2, 3, 5, 7, 9], [0, 2, 4], [0, 2, 4], ['C', 'G', 'CG'], ['b1', 'b2']):
+        out.append(timeout_scn(tmo, 0, cs, gs, True, False, False, tg, extra))
     return out
 
 
@@ -467,7 +501,96 @@ def sys_errors():
     return out
 
 
+# ---------------------------------------------------------------------------------------------
+# redispatch: the same event object dispatched to the same bus again (C01: still exactly once per handler)
+# ---------------------------------------------------------------------------------------------
+def sys_redispatch():
+    out = []
+    for how, target, h2kind, ny, nh, later in itertools.product(['driver_twice', 'handler_before_await', 'handler_after_await', 'driver_later', 'other_bus'],
+                                                                ['b1', 'b2'], ['async', 'sync'], [0, 1, 2], [2, 3], [False, True]):
+        h1 = [['d', target, 'C']]
+        if how == 'handler_before_await':
+            h1 = [['rd', 'b1']] + h1
+        if ny:
+            h1.append(['y', ny])
+        h1.append(['a', 0])
+        if how == 'handler_after_await':
+            h1.append(['rd', 'b1'])
+        if how == 'other_bus':
+            h1.append(['rd', 'b2'])
+        scripts = {'H1': {'R': h1}, 'H2': {'R': [] if h2kind == 'sync' else [['y', 1]]}, 'H3': {'R': [['s', 1]]},
+                   'S_b1': {'C': [['s', 1]], 'U': []}, 'S_b2': {'C': [['y', 1]], 'U': [], 'R': [['y', 1]]}}
+        handlers = [typed('b1', 'R', 'H1', hid='h1'), typed('b1', 'R', 'H2', h2kind, hid='h2')]
+        if nh == 3:
+            handlers.append(typed('b1', 'R', 'H3', hid='h3'))
+        handlers += [typed('b1', 'C', 'S_b1', hid='c_b1'), typed('b1', 'U', 'S_b1', hid='u_b1'), wild('b2')]
+        d = [['d', 'b1', 'R']]
+        if how == 'driver_twice':
+            d.append(['rd', 'b1', 0])
+        if later:
+            d.append(['d', 'b1', 'U'])
+        if how == 'driver_later':
+            d += [['y', 3], ['rd', 'b1', 0]]
+        d += [['a', 0], ['idle', 'b1', 2000], ['idle', 'b2', 2000]]
+        out.append(scn([bus('b1'), bus('b2')], handlers, scripts, [d], horizon=6000, tag='redispatch'))
+    return out
+
+
+def sys_errors_par():
+    out = []
+    for raise_at, c1_sleep, par, target, nsib, sync_c2 in itertools.product([1, 2, 4], [0, 3, 5], [True, False], ['b1', 'b2'], [1, 2], [False, True]):
+        scripts = {'HA': {'R': [['d', target, 'C'], ['a', 0], ['ret', 'i1']]},
+                   'HB': {'R': [['s', raise_at], ['raise']]},
+                   'HC': {'R': [['s', raise_at + 1], ['ret', 'exc']]},
+                   'C1': {'C': [['s', c1_sleep]] if c1_sleep else []}, 'C2': {'C': [] if sync_c2 else [['y', 1]]},
+                   'L': {'L': []}}
+        handlers = [typed('b1', 'R', 'HA', hid='ha'), typed('b1', 'R', 'HB', hid='hb')]
+        if nsib == 2:
+            handlers.append(typed('b1', 'R', 'HC', hid='hc'))
+        handlers += [typed(target, 'C', 'C1', hid='c1'), typed(target, 'C', 'C2', 'sync' if sync_c2 else 'async', hid='c2'),
+                     typed('b1', 'L', 'L', hid='l1')]
+        d = [['d', 'b1', 'R'], ['a', 0], ['d', 'b1', 'L'], ['idle', 'b1', 2000], ['idle', 'b2', 2000],
+             ['acc', 0, 'event_result', {'raise_if_any': True}]]
+        out.append(scn([bus('b1', parallel=par), bus('b2')], handlers, scripts, [d], horizon=6000, tag='errors_par'))
+    return out
+
+
+def sys_retry_dispatch():
+    """C14: a rejected dispatch leaves no trace - dispatching the same event object again later must work like a first dispatch"""
+    out = []
+    for n, from_handler, wait in itertools.product([100, 101, 105], [False, True], [['idle', 'b1', 3000], ['s', 300]]):
+        if from_handler:
+            # the handler bursts until rejection, waits for the backlog to drain, then re-dispatches the last (rejected) event
+            scripts = {'S_b1': {'R': [['d', 'b1', 'K'] for _ in range(n)] + [['s', 5]], 'K': [], 'Z': [['d', 'b1', 'K'] for _ in range(n)]}}
+            d = [['d', 'b1', 'R'], ['a', 0], wait, ['idle', 'b1', 3000]]
+        else:
+            scripts = {'S_b1': {'R': [['s', 2]], 'K': []}}
+            d = [['d', 'b1', 'R']] + [['d', 'b1', 'K'] for _ in range(n)] + [['a', 0], wait, ['rd', 'b1', n], ['a', n], ['idle', 'b1', 3000]]
+        out.append(scn([bus('b1', maxhist=200)], [wild('b1')], scripts, [d], horizon=9000, tag='retry_dispatch'))
+    return out
+
+
+def sys_idle_par():
+    """C15 on a parallel bus: a handler fails while a sibling is still running, the event is evicted from a small history by a burst"""
+    out = []
+    for mh, burst, fail_at, slow, par, idle_after in itertools.product([2, 5, 50], [0, 3, 6, 55], [0, 1], [4, 8], [True, False], [0, 1, 3]):
+        if burst == 55 and mh != 50:
+            continue
+        scripts = {'HF': {'R': ([['s', fail_at]] if fail_at else [['y', 1]]) + [['raise']]}, 'HS': {'R': [['s', slow]]}, 'U': {'U': []}}
+        handlers = [typed('b1', 'R', 'HF', hid='hfail'), typed('b1', 'R', 'HS', hid='hslow'), typed('b1', 'U', 'U', hid='hu')]
+        d = [['d', 'b1', 'R']] + [['d', 'b1', 'U'] for _ in range(burst)]
+        if idle_after:
+            d.append(['s', idle_after])
+        d += [['idle', 'b1'], ['idle', 'b1', 3000]]
+        out.append(scn([bus('b1', parallel=par, maxhist=mh)], handlers, scripts, [d], horizon=8000, tag='idle_par'))
+    return out
+
+
 FAMILIES = {
+    'errors_par': ('sys', sys_errors_par),
+    'retry_dispatch': ('sys', sys_retry_dispatch),
+    'idle_par': ('sys', sys_idle_par),
+    'redispatch': ('sys', sys_redispatch),
     'await_pos': ('sys', sys_await_positions),
     'fwd3': ('sys', sys_fwd3),
     'firstuse': ('sys', sys_firstuse),
